@@ -4,8 +4,14 @@
 use std::collections::BTreeMap;
 use std::sync::{Arc, Mutex};
 
-use netconf::message::rpc::operation::{Builder, Get};
-use netconf::Session;
+use netconf::message::rpc::operation::{
+    junos::{
+        load_configuration::{Config, Merge, Xml},
+        CloseConfiguration, CommitConfiguration, LoadConfiguration, OpenConfiguration,
+    },
+    Builder, Datastore, Get, Lock, Opaque,
+};
+use netconf::{Error, Session};
 
 use crate::core::{Ctx, PropSpec, Tier, Verdict};
 use crate::ev;
@@ -194,6 +200,31 @@ fn error_reply(id: &str, x: usize) -> Vec<u8> {
     )
 }
 
+const OPS: [&str; 6] = ["get", "lock", "open-configuration", "close-configuration", "load-configuration", "commit-configuration"];
+
+/// a valid reply to operation `op` (index into OPS), in one of its shapes
+fn valid_reply_for(ctx: &mut Ctx, op: usize, id: &str, x: usize) -> Vec<u8> {
+    let warning = "<rpc-error><error-type>protocol</error-type><error-tag>operation-failed</error-tag><error-severity>warning</error-severity><error-message>statement not found</error-message><error-info><bad-element>policy-statement</bad-element></error-info></rpc-error>";
+    match (op, ctx.pick(3)) {
+        (_, 0) => error_reply(id, x),
+        (0, _) => reply(id, &format!("<data><t xmlns=\"urn:x\">TAG-{x}-OK</t></data>")),
+        (1, _) => reply(id, "<ok/>"),
+        (2, 1) | (3, 1) => reply(id, ""),
+        (2, _) | (3, _) => reply(id, warning),
+        (4, 1) => reply(id, "<load-configuration-results><ok/></load-configuration-results>"),
+        (4, _) => reply(id, &format!("<load-configuration-results>{warning}<load-error-count>1</load-error-count><ok/></load-configuration-results>")),
+        (_, 1) => reply(id, "<ok/>"),
+        _ => reply(id, &format!("{warning}<ok/>")),
+    }
+}
+
+fn show<T: std::fmt::Debug>(r: Result<T, Error>) -> String {
+    match r {
+        Ok(o) => format!("Ok({})", format!("{o:?}").chars().take(200).collect::<String>()),
+        Err(e) => format!("Err({})", format!("{e:?}").chars().take(200).collect::<String>()),
+    }
+}
+
 struct Fake {
     n: usize,
     target_k: Option<usize>,
@@ -250,15 +281,16 @@ fn run(ctx: &mut Ctx) -> Verdict {
             let permute = ctx.pick(2) == 1;
             let valid_hello = hello_with(&[CAP_BASE10, CAP_JUNOS], "21");
             let valid_hello = &valid_hello[..valid_hello.len() - MARKER.len()];
-            let valid_reply = if target == Target::Reply && ctx.pick(3) == 0 {
-                ctx.count("probe.base_message_is_rpc_error_reply");
-                error_reply(&format!("{}", x + 1), x)
+            let op = if target == Target::Reply { ctx.pick(OPS.len()) } else { 0 };
+            let valid_reply = if target == Target::Reply {
+                ctx.count(&format!("probe.base_reply_to.{}", OPS[op]));
+                valid_reply_for(ctx, op, &format!("{}", x + 1), x)
             } else {
                 reply(&format!("{}", x + 1), &format!("<data><t xmlns=\"urn:x\">TAG-{x}-OK</t></data>"))
             };
             let valid_reply = &valid_reply[..valid_reply.len() - MARKER.len()];
             let (mutated, what) = if target == Target::Hello { mutate(ctx, valid_hello, valid_reply) } else { mutate(ctx, valid_reply, valid_hello) };
-            ev!(ctx, "{target:?} n={n} x={x} permute={permute}: {what}");
+            ev!(ctx, "{target:?} n={n} x={x} op={} permute={permute}: {what}", OPS[op]);
             ev!(ctx, "bytes {}", String::from_utf8_lossy(&mutated[..mutated.len().min(300)]));
             ctx.count(&format!("fault.{}", what.split(|c: char| c == '@' || c.is_ascii_digit()).next().unwrap_or("").trim()));
             // a delimiter inside the mutated bytes would be cut by any real transport: keep the first part
@@ -300,16 +332,25 @@ fn run(ctx: &mut Ctx) -> Verdict {
                             return;
                         }
                     };
+                    type F = std::pin::Pin<Box<dyn std::future::Future<Output = String> + Send>>;
                     for k in 0..n {
-                        match s.rpc::<Get, _>(|b| b.finish()).await {
+                        let this_op = if target == Target::Reply && k == x { op } else { 0 };
+                        let f: Result<F, Error> = match this_op {
+                            0 => s.rpc::<Get, _>(|b| b.finish()).await.map(|f| Box::pin(async move { show(f.await) }) as F),
+                            1 => s.rpc::<Lock, _>(|b| b.target(Datastore::Running)?.finish()).await.map(|f| Box::pin(async move { show(f.await) }) as F),
+                            2 => s.rpc::<OpenConfiguration, _>(|b| b.ephemeral(Some("db")).finish()).await.map(|f| Box::pin(async move { show(f.await) }) as F),
+                            3 => s.rpc::<CloseConfiguration, _>(|b| b.finish()).await.map(|f| Box::pin(async move { show(f.await) }) as F),
+                            4 => s
+                                .rpc::<LoadConfiguration<_>, _>(|b| b.source(Config::new(Opaque::from("<configuration/>"), Xml, Merge)).finish())
+                                .await
+                                .map(|f| Box::pin(async move { show(f.await) }) as F),
+                            _ => s.rpc::<CommitConfiguration, _>(|b| b.finish()).await.map(|f| Box::pin(async move { show(f.await) }) as F),
+                        };
+                        match f {
                             Ok(f) => {
                                 let r = results2.clone();
                                 spawner.spawn(format!("F{k}"), false, async move {
-                                    let v = f.await;
-                                    let text = match &v {
-                                        Ok(o) => format!("Ok({})", o.chars().take(200).collect::<String>()),
-                                        Err(e) => format!("Err({})", format!("{e:?}").chars().take(200).collect::<String>()),
-                                    };
+                                    let text = f.await;
                                     r.lock().unwrap().insert(k, text);
                                 });
                             }
@@ -391,10 +432,10 @@ pub static C14: PropSpec = PropSpec {
     id: "C14",
     simulator: "S-sim (+ reader facades)",
     level: "exploration",
-    runs: |t| if t == Tier::Thorough { 1_500_000 } else { 120_000 },
+    runs: |t| if t == Tier::Thorough { 12_000_000 } else { 120_000 },
     enumerated: |_| 0,
     run,
-    rule: "a session with 1-4 outstanding get requests (each awaited in its own task, replies in order or permuted); the server hello or the reply to one request is replaced by a mutation of the valid message: truncation at any offset, splice with another message, 1-3 byte flips, duplicated region, huge / negative message-id, invalid UTF-8, wrong namespace, 64 KiB (thorough: 4 MiB) of text, random bytes, empty message, deep nesting, huge numbers, two roots, duplicate attributes, DOCTYPE + comments, the text of one leaf or the value of one attribute replaced by a generated value (0-140 ASCII bytes followed by 0-59 repetitions of a 2-, 3- or 4-byte character, blank, entity or character reference). One reply in three starts from a complete <rpc-error> reply so that the error readers are reached. The same mutations are applied to running / ephemeral configuration documents fed to the agent's readers. Non-trivial = a mutation was delivered; distinct = distinct event-log hash",
+    rule: "a session with 1-4 outstanding get requests (each awaited in its own task, replies in order or permuted); the server hello or the reply to one request is replaced by a mutation of the valid message: truncation at any offset, splice with another message, 1-3 byte flips, duplicated region, huge / negative message-id, invalid UTF-8, wrong namespace, 64 KiB (thorough: 4 MiB) of text, random bytes, empty message, deep nesting, huge numbers, two roots, duplicate attributes, DOCTYPE + comments, the text of one leaf or the value of one attribute replaced by a generated value (0-140 ASCII bytes followed by 0-59 repetitions of a 2-, 3- or 4-byte character, blank, entity or character reference). The request whose reply is mutated is one of get, lock, open-, close-, load- and commit-configuration, and its valid base reply one of that operation's shapes (data, <ok/>, empty, warning, load-configuration-results with a warning and an error count) or a complete <rpc-error> reply, so that every reply reader is reached. The same mutations are applied to running / ephemeral configuration documents fed to the agent's readers. Non-trivial = a mutation was delivered; distinct = distinct event-log hash",
     components: &[
         ("netconf session + message readers", "real"),
         ("junos-agent policies/fetch.rs readers via the verif facade", "real"),
